@@ -301,14 +301,17 @@ static Reg r_edgepoly("edgepoly", [](const Args& a) {
 });
 
 // ---- tools/Planimeter, in process ----------------------------------------------------------------------------------
-struct PlanOpt { bool reverse = false, sign = true, polyline = false, longfirst = false, exact = false, geoconvert = false; int linetype = 0; int prec = 6; double a = Constants::WGS84_a(), f = Constants::WGS84_f(); std::string cdelim; bool viastring = false; char lsep = ';'; bool usage_error = false; };
+struct PlanOpt { bool reverse = false, sign = true, polyline = false, longfirst = false, exact = false, geoconvert = false; int linetype = 0; int prec = 6; double a = Constants::WGS84_a(), f = Constants::WGS84_f(); std::string cdelim; bool viastring = false; char lsep = ';'; bool usage_error = false; int expect_rc = 1; };
 static const std::vector<std::vector<std::string>> plan_variants = {
   {}, {"-r"}, {"-s"}, {"-r", "-s"}, {"-l"}, {"-R"}, {"-R", "-r"}, {"-R", "-s"}, {"-R", "-l"}, {"-E"}, {"-R", "-E"}, {"-G"}, {"-Q"}, {"-Q", "-E"}, {"-Q", "-s"},
   {"-p", "0"}, {"-p", "10"}, {"-p", "3", "-r"}, {"-p", "15"}, {"-p", "-2"}, {"-w"}, {"-w", "-R"}, {"-e", "6378388", "1/297"}, {"-e", "6.4e6", "0"}, {"-e", "6.4e6", "-0.01", "-E"},
   {"--geoconvert-input"}, {"--geoconvert-input", "-w"}, {"--geoconvert-input", "-R"}, {"--comment-delimiter", "#"}, {"--comment-delimiter", "//", "-l"},
   {"--input-string"}, {"--input-string", "--line-separator", "/"}, {"-r", "-r"}, {"-l", "-l", "-s", "-s"}, {"-R", "-G"}, {"-Q", "-l"},
   // usage errors: exit status 1, nothing on standard output
-  {"-p", "x"}, {"-e", "6378137"}, {"-e", "abc", "0"}, {"--bogus"}, {"--line-separator", "ab"}, {"-p"}, {"--input-string", "--input-file", "nonexistent"}};
+  {"-p", "x"}, {"-e", "6378137"}, {"-e", "abc", "0"}, {"--bogus"}, {"--line-separator", "ab"}, {"-p"}, {"--input-string", "--input-file", "nonexistent"},
+  {"--input-file", "/nonexistent/verif-c08"}, {"-e", "6378137", "1/0x"}, {"--comment-delimiter"}, {"-r", "-z"},
+  // requests for information: exit status 0, no result lines
+  {"-h"}, {"--help"}};
 static PlanOpt plan_options(const std::vector<std::string>& v) {
   PlanOpt o;
   for (size_t m = 0; m < v.size(); ++m) { const std::string& s = v[m];
@@ -316,7 +319,8 @@ static PlanOpt plan_options(const std::vector<std::string>& v) {
     else if (s == "-G") o.linetype = 0; else if (s == "-Q") o.linetype = 1; else if (s == "-R") o.linetype = 2; else if (s == "-E") o.exact = true;
     else if (s == "--geoconvert-input") o.geoconvert = true; else if (s == "--input-string") o.viastring = true;
     else if (s == "--line-separator") { if (m + 1 < v.size() && v[m + 1].size() == 1) o.lsep = v[++m][0]; else o.usage_error = true; }
-    else if (s == "--comment-delimiter") o.cdelim = v[++m];
+    else if (s == "--comment-delimiter") { if (m + 1 < v.size()) o.cdelim = v[++m]; else o.usage_error = true; }
+    else if (s == "-h" || s == "--help") { o.usage_error = true; o.expect_rc = 0; break; }
     else if (s == "-p") { if (m + 1 >= v.size()) { o.usage_error = true; break; } try { o.prec = Utility::val<int>(v[++m]); } catch (const std::exception&) { o.usage_error = true; } }
     else if (s == "-e") { if (m + 2 >= v.size()) { o.usage_error = true; break; } try { o.a = Utility::val<double>(v[m + 1]); o.f = Utility::fract<double>(v[m + 2]); } catch (const std::exception&) { o.usage_error = true; } m += 2; }
     else if (s == "--input-file") { o.usage_error = true; ++m; }
@@ -370,7 +374,7 @@ static Reg r_planim("planim", [](const Args& a) {
   std::string output; int rc = run_planimeter(v, input, o.viastring, o.lsep, output);
   if (rc < -90) { emit("crash"); return; }
   if (o.usage_error) { emit("usage " + std::to_string(rc) + " " + std::to_string(output.size()));
-    if (rc != 1 || !output.empty()) badx("tool-usage-error", "Planimeter: malformed command line gives exit status " + std::to_string(rc) + " and " + std::to_string(output.size()) + " bytes of output"); return; }
+    if (rc != o.expect_rc || !output.empty()) badx("tool-usage-error", "Planimeter: command line that asks for no computation gives exit status " + std::to_string(rc) + " (expected " + std::to_string(o.expect_rc) + ") and " + std::to_string(output.size()) + " bytes of output"); return; }
   std::string text, tags; std::vector<unsigned> nums;
   // --input-string: the text without its final newline, newlines written as the separator (an empty string means
   // "read standard input", which is empty here)
@@ -486,7 +490,7 @@ static void gen_planim(Rng& r, int variant) {
 void gv::generate(const std::string& tier, uint64_t seed) {
   Rng r(seed * 32452843 + 8);
   bool thorough = tier == "thorough";
-  long n = thorough ? 20000 : 1500;
+  long n = thorough ? 16000 : 3000;
   const char* backends = "GERXY";
   for (long i = 0; i < n; ++i) {
     char bk = backends[i % 5];
@@ -508,10 +512,10 @@ void gv::generate(const std::string& tier, uint64_t seed) {
       if (r.irange(0, 11) == 0) { lat = lat0; lon = lon0 + 360.0 * r.irange(-1, 1); }   // repeated vertex, possibly relabelled
       if (style == 2 && j > 0 && k < 11) k = 12;
       if (k < 11) { ops.push_back(P(lat, lon)); lat0 = lat; lon0 = lon; }
-      else if (k < 14) ops.push_back(E(nazi(r), r.irange(0, 5) ? r.range(0, 3e6) : r.pick(std::vector<double>{0.0, 1e7, 2e7, 4e7, 1.3e8, -1e6})));
+      else if (k < 14) ops.push_back(E(nazi(r), r.irange(0, (bk == 'R' || bk == 'Y') ? 15 : 5) ? r.range(0, 3e6) : r.pick(std::vector<double>{0.0, 1e7, 2e7, 4e7, 1.3e8, -1e6})));
       else if (k < 16) ops.push_back("C:" + flags(r));
       else if (k < 18) ops.push_back("TP:" + hx(lat) + ":" + hx(lon) + ":" + flags(r));
-      else if (k < 19) ops.push_back("TE:" + hx(nazi(r)) + ":" + hx(r.irange(0, 7) ? r.range(0, 2e6) : r.pick(std::vector<double>{0.0, 2e7, 1e8, -5e5})) + ":" + flags(r));
+      else if (k < 19) ops.push_back("TE:" + hx(nazi(r)) + ":" + hx(r.irange(0, 7) ? r.range(0, 2e6) : r.pick(std::vector<double>{0.0, 2e7, (bk == 'R' || bk == 'Y') ? 3e6 : 1e8, -5e5})) + ":" + flags(r));
       else { ops.push_back("X"); if (r.coin()) ops.push_back(r.coin() ? "C:" + flags(r) : E(nazi(r), 1e5)); }
     }
     ops.push_back("C:" + flags(r));
